@@ -108,6 +108,33 @@ def handle (op : String) (j : Json) : Option Json :=
         | _, _, _ => badInput)).toArray)
     | _, _ => some badInput
   else if op == "c05.recomb" then some (recombJson j)
+  else if op == "c05.as_phred" then
+    -- `{calls: [[[m, e]…]…] (log10 likelihoods) | pls: [[int…]…], reg: [m, e] | null}` -> per call list of ints / null
+    let reg := (getObj? j "reg").bind parseFloat
+    let calls? : Option (List (List Float)) :=
+      match (getList? j "calls").bind (·.mapM (fun c => (asArr? c).bind (·.mapM parseFloat))) with
+      | some cs => some cs
+      | none => ((getObj? j "pls").bind intListList?).map (·.map (·.map plToLog))
+    match calls? with
+    | some cs => some (ofList (fun c => match asPhredFloat c reg with | some r => ofIntList r | none => Json.null) cs)
+    | none => some badInput
+  else if op == "c05.gl_int" then
+    -- integer stage: `{pls: [[nat…]…]}` -> `plToPhred`; `{default_gq, gts}` -> `defaultGl`
+    match (getObj? j "pls").bind natListList?, getNat? j "default_gq", (getObj? j "gts").bind natListList? with
+    | some pls, _, _ => some (ofList ofNatList (pls.map plToPhred))
+    | none, some gq, some gts => some (ofList ofNatList (gts.map (defaultGl gq)))
+    | _, _, _ => some badInput
+  else if op == "c05.output_gt" then
+    -- `{calls: [[inputGt, [a0, a1]]…]}` -> output genotype per call
+    match getList? j "calls" with
+    | some cs => some (ofList (fun c =>
+        match (asArr? c) with
+        | some [g, sr] =>
+          (match natList? g, natList? sr with
+           | some g, some [a0, a1] => ofNatList (outputGt g (a0, a1))
+           | _, _ => badInput)
+        | _ => badInput) cs)
+    | none => some badInput
   else if op == "c05.phred" then
     -- list of distances `[m, e]` -> per distance `{ok: round(centimorgen_to_phred(d))}` / `{err}`
     match (getList? j "d").bind (·.mapM parseFloat) with
